@@ -107,6 +107,7 @@ type machine struct {
 	ctxKids map[*ctxV][]*ctxV
 	initRunning *ssa.Package
 	fsm *fsModel
+	traceWhere []string
 	builders map[*value]value
 	errNotExist iface
 	concrete []NondetVal
